@@ -226,6 +226,7 @@ let all_same = function [] -> true | x :: t -> List.for_all (fun y -> y = x) t
 
 let genprog_eval (fn : string) (args : string list) : string =
   match fn, args with
+  | "GENPROG", [ "types" ] -> "ok"
   | "GENPROG", [ file; "imports" ] -> String.concat " " (List.map str_of (canon_imports file))
   | "GENPROG", [ file; "decls" ] -> String.concat " " (List.map decl_key (canon_file file))
   | "GENPROG", [ file; key ] -> (match canon_decl file key with Some d -> decl_s d | None -> "-")
